@@ -67,7 +67,9 @@ def driver_alphabet():
 
 
 HOSTILE = ['inbox', 'Inbox', 'INBOX/x', 'a', 'a/', 'a//b', '*', '%', 'a"b',
-           'a\nb', 'é', '&', 'c', 'zz', 'a/b/c', 'A']
+           'a\nb', 'é', '&', 'c', 'zz', 'a/b/c', 'A',
+           # other characters that text tools take for line breaks
+           'a\x0cc', 'a\x1dc', 'a\x85c', 'a\u2028c', 'a\rc', ' a', 'a ']
 
 
 def probe_alphabet():
